@@ -68,15 +68,15 @@ def _remix(rng, ops):
     ones roll the arena over many times), sometimes the producer's shared arena ("shared": anchored slices of an
     arena that outlives the call and is dropped at a random later moment)."""
     policy = rng.random()
-    one = rng.choice(METHODS + ["shared", "shared"]) if policy < 0.35 else None
+    one = rng.choice(METHODS + ["shared", "shared", "ahead", "ahead"]) if policy < 0.4 else None
     out = []
     for op in ops:
         if op["ev"] == "feed":
             op = dict(op)
             if one is not None:
                 op["m"] = one
-            elif rng.random() < 0.15:
-                op["m"] = "shared"
+            elif rng.random() < 0.25:
+                op["m"] = rng.choice(["shared", "ahead"])
         out.append(op)
         if op["ev"] == "drain" and rng.random() < 0.3:
             out.append({"ev": "drop_shared"})
@@ -260,6 +260,14 @@ def prod_inputs(rng, tier):
             out.append(buf)
     for n in [b2 - 1, b2, b2 + 1]:
         out.append(_filler(n, rng))
+    # a size-limited chunk that ends in FE, followed by a chunk of about one radix (its header byte follows that FE)
+    for sz in (252, 253, 254, 253 + 252, 2 * 253):
+        buf = _filler(b1 + sz, rng)
+        buf[b1 - 1] = FE
+        out.append(buf)
+    buf = _filler(b2 + 253, rng)
+    buf[b2 - 1] = FE
+    out.append(buf)
     if tier != "quick":
         b3 = b2 + L2P
         for off in (-2, -1, 0, 1):
@@ -268,7 +276,7 @@ def prod_inputs(rng, tier):
             out.append(buf)
         out.append(_filler(b3, rng))
     # later chunks of many sizes: every interesting (low, high) pair of radix-253 header digits
-    lows = [0xFC, 0xF1, 0x80] if tier == "quick" else [0, 1, 2, 0x7F, 0x80, 0xF1, 0xFC]
+    lows = [0, 1, 0xFC, 0xF1, 0x80] if tier == "quick" else [0, 1, 2, 0x7F, 0x80, 0xF1, 0xFC]
     highs = [0, 1, 0x0E] if tier == "quick" else [0, 1, 2, 0x0E, 0x7F, 0x80, 0xFC]
     sizes = sorted({lo + 253 * hi for lo in lows for hi in highs if lo + 253 * hi < L2P})
     group, total = [], 0
@@ -548,6 +556,11 @@ def run_footprint(res, work, tier, seed):
         rid += 1
         runs.append({"run": rid, "cfg": {"kind": "sreader", "shape": "nostuff", "total": big, "sizes": [1], "big": big,
                                          "seed": 5}, "ops": []})
+    # many records that leave no slice behind: empty ones (only looked at), and ones invalid from the first byte
+    for log in ("empties", "junk"):
+        rid += 1
+        runs.append({"run": rid, "cfg": {"kind": "sreader", "shape": "nostuff", "total": 24 * mib, "sizes": [1], "big": 24 * mib,
+                                         "log": log, "seed": 5}, "ops": []})
     trace = core.drive("footprint", runs, work, "footprint", timeout=7000)
     tv = tlc.validate_trace("FootprintTrace", "FootprintTrace.cfg", trace, os.path.join(work, "tv"), timeout=3000)
     res.add_tv(tv, {r["run"]: r for r in runs}, "footprint", "long streams", crash_props=("C10",))
